@@ -9,8 +9,10 @@ import RpmVerif.Spec.AddData
                            – the real `std::path` functions on raw bytes, against `Model/Path.lean`
   `level T L`              – build with `CompressionWithLevel::T(L)` in a child process:
                              `ok | err | panic | abort | corrupt | unrepresentable`
-  `tsset <sd|cl> <u32|sys|utc|fix> S N` – `source_date` / `add_changelog_entry` with the instant as that type
-                             under catch_unwind: `ok [n] | panic | unrepresentable`
+  `tsset <sd|cl|sg> <u32|sys|utc|fix> S N` – `source_date` / `add_changelog_entry` / (`sg`) `Package::sign_with_timestamp` on a
+                             built package, with the instant as that type under catch_unwind: `ok [n] | panic | unrepresentable`.
+                             `sg` is the same `t.try_into().unwrap()` (model `Sign.signOpE`; `C10.sign_panics_iff`: it panics
+                             exactly when `timestampSetter` does, before the signer is asked) — same failure class, same known finding
   `capsset H`              – `FileOptions::caps(H)` (+ build) and `FileCaps::from_str(H)`: `<ok|err:..|panic> <ok|err>`
   `meta H`                 – every string setter with `H`, then build: `ok | err:.. | panic`
 Verdict: a `panic` / `abort` is `fails:timestamp-setter-panic` for `tsset`, `fails:builder-panic` elsewhere;
@@ -117,14 +119,14 @@ def handleTs (setter kind : String) (secs : Int) (nanos : Nat) (impl : String) :
       | "fix" => some (.src (.chrono ⟨inst, 20700⟩))
       | _ => none
     if kind != "u32" && kind != "sys" && kind != "utc" && kind != "fix" then badReq "kind"
-    else if setter != "sd" && setter != "cl" then badReq "setter"
+    else if setter != "sd" && setter != "cl" && setter != "sg" then badReq "setter"
     else
       let m :=
         match arg with
         | none => "unrepresentable"
         | some a =>
           if impl == "unrepresentable" && !inCore secs then "*"
-          else match (if setter == "sd" then sourceDate a else addChangelogEntry [] [] a) with
+          else match (if setter == "sd" then sourceDate a else if setter == "sg" then timestampSetter a else addChangelogEntry [] [] a) with
             | .ok n => if setter == "cl" then "ok " ++ toString n else "ok"
             | .err _ => "err"
             -- the known-finding region: the model mirrors the defect; a repaired setter (however it
